@@ -118,9 +118,9 @@ def unle : List Nat → Nat
 /-- `int8_t` conversion of `opcode_info_t::VarStackOffset` -/
 def toInt8 (i : Int) : Int := (i + 128) % 256 - 128
 
-/-- conversion to `int16_t` (`m_iVarStackOffset` and the two maxima are 16-bit members; `+=` computes in `int`
-    and narrows) -/
-def toInt16 (i : Int) : Int := (i + 32768) % 65536 - 32768
+/-- conversion to the type of `m_iVarStackOffset` (`+=` computes in `int` and narrows to the member's width, which
+    is regenerated from the source: `stackBits`) -/
+def toStackInt (i : Int) : Int := (i + 2 ^ (stackBits - 1)) % 2 ^ stackBits - 2 ^ (stackBits - 1)
 
 structure PrevOp where
   op : Nat
@@ -392,14 +392,14 @@ def St.accumulate (s : St) (op : Nat) (off : Int) : St :=
 def St.absorb (s : St) : R St := do
   let p ← s.prevOp
   let len ← match opLen? p.op with | some l => .ok l | none => .error (.ub .opcodeTable)
-  let s ← { s with varStack := toInt16 (s.varStack - p.off) }.moveBack len
+  let s ← { s with varStack := toStackInt (s.varStack - p.off) }.moveBack len
   let pp := if s.prevPos = 0 then 100 else s.prevPos
   .ok { s with prevPos := pp - 1 }
 
 /-- the stack bookkeeping of `EmitOpcodeWithStack` (`m_iVarStackOffset` and the two maxima) -/
 def St.trackStack (s : St) (ext : Bool) (off : Int) : St :=
   let s := if ext then { s with maxExt := if s.varStack > s.maxExt then s.varStack else s.maxExt } else s
-  let s := { s with varStack := toInt16 (s.varStack + off) }
+  let s := { s with varStack := toStackInt (s.varStack + off) }
   if !ext then { s with maxInt := if s.varStack > s.maxInt then s.varStack else s.maxInt } else s
 
 /-- `EmitOpcodeWithStack` -/
